@@ -17,6 +17,7 @@ import (
 	"go/token"
 	"go/types"
 	"regexp"
+	"strconv"
 	"strings"
 )
 
@@ -104,6 +105,7 @@ var opaqueCtors9 = map[string]opaqueCtor9{
 	"miscreant.NewAEAD": {[]string{"Str", "L_UInt8", "Int64"}, aeadObj9, map[string]opaqueMethod9{
 		"NonceSize": {nil, "Int64", false},
 		"Open":      {[]string{"L_UInt8", "L_UInt8", "L_UInt8", "L_UInt8"}, "T:L_UInt8,Bool", true},
+		"Seal":      {[]string{"L_UInt8", "L_UInt8", "L_UInt8", "L_UInt8"}, "L_UInt8", true},
 	}},
 }
 
@@ -117,6 +119,14 @@ func (c *leafCtx) args9(what string, args []ast.Expr, types []string) ([]string,
 		var e, t string
 		if id, ok := a.(*ast.Ident); ok && id.Name == "nil" && types[i] == "L_UInt8" {
 			e, t = "([] : List UInt8)", "L_UInt8" // a nil byte slice: length 0
+		} else if se, ok := a.(*ast.SliceExpr); ok && types[i] == "L_UInt8" && se.Low == nil && se.High != nil && se.Max == nil && c.isOutParam9(se.X) {
+			// buf[:hi] of a buffer the function writes, as an ARGUMENT of a library call: its contents at the
+			// moment of the call are what the callee reads (the library does not keep the slice)
+			hi, _ := c.expr(se.High, "Int64")
+			v := c.fresh("_s")
+			c.binds = append(c.binds, c.bindLine("(Go.subslice? "+c.lname(se.X.(*ast.Ident).Name)+" (0 : Int64) "+hi+")", v, "opt:slice"))
+			c.needPrelude3 = true
+			e, t = v, "L_UInt8"
 		} else if bl, ok := a.(*ast.BasicLit); ok && types[i] == "Int64" {
 			e, t = "("+bl.Value+" : Int64)", "Int64"
 		} else {
@@ -191,6 +201,14 @@ func (c *leafCtx) expr9(e ast.Expr, want string) (string, string, bool) {
 			}
 			return call, m.ret, true
 		}
+	case *ast.UnaryExpr: // ^k for an integer constant k in an int context: -k-1 (two's complement)
+		if x.Op == token.XOR && (want == "Int64" || want == "") {
+			if bl, ok := x.X.(*ast.BasicLit); ok && bl.Kind == token.INT {
+				if k, err := strconv.Atoi(bl.Value); err == nil {
+					return "(" + strconv.Itoa(-k-1) + " : Int64)", "Int64", true
+				}
+			}
+		}
 	case *ast.SliceExpr: // b[:hi] as a value on a byte-slice parameter the function does not write: b[0:hi]
 		if id, isId := x.X.(*ast.Ident); isId && c.vars[id.Name] == "L_UInt8" && !c.madeHere[id.Name] && x.Low == nil && x.High != nil && x.Max == nil {
 			s, t := c.expr(&ast.SliceExpr{X: x.X, Low: &ast.BasicLit{Kind: token.INT, Value: "0"}, High: x.High}, want)
@@ -230,7 +248,93 @@ func sinkType9(t ast.Expr) string {
 	return ""
 }
 
+// paramBuf9: `buf[k:]` on a byte-slice PARAMETER (not made here, rendered as a list): the bound of the
+// slice expression is len(buf) whatever the capacity (the high index defaults to len), so the
+// element writes behind it are writes to the visible part of the caller's slice — the parameter
+// becomes a pointer target (its final contents are handed back), as for `b[i] = v` in generation 7.
+func (c *leafCtx) paramBuf9(e ast.Expr) (*ast.Ident, ast.Expr, bool) {
+	se, ok := e.(*ast.SliceExpr)
+	if !ok || se.High != nil || se.Max != nil || se.Low == nil {
+		return nil, nil, false
+	}
+	id, ok := se.X.(*ast.Ident)
+	if !ok || c.vars[id.Name] != "L_UInt8" || c.madeHere[id.Name] {
+		return nil, nil, false
+	}
+	isOut := false
+	for _, o := range c.outs {
+		if o == id.Name {
+			isOut = true
+		}
+	}
+	if !isOut {
+		return nil, nil, false
+	}
+	return id, se.Low, true
+}
+
+func isPutUint16(ce *ast.CallExpr) bool {
+	f, ok := ce.Fun.(*ast.SelectorExpr)
+	if !ok || f.Sel.Name != "PutUint16" || len(ce.Args) != 2 {
+		return false
+	}
+	inner, ok := f.X.(*ast.SelectorExpr)
+	if !ok || inner.Sel.Name != "BigEndian" {
+		return false
+	}
+	pk, ok := inner.X.(*ast.Ident)
+	return ok && pk.Name == "binary"
+}
+
 func (c *leafCtx) stmt9(s ast.Stmt, next func(string) string, ind string) (string, bool) {
+	nl := "\n" + ind
+	if as, ok := s.(*ast.AssignStmt); ok && len(as.Lhs) == 1 && len(as.Rhs) == 1 && (as.Tok == token.DEFINE || as.Tok == token.ASSIGN) {
+		// n := copy(buf[pos:], src) on a byte-slice parameter: the bytes and the count
+		if ce, ok := as.Rhs[0].(*ast.CallExpr); ok && len(ce.Args) == 2 {
+			if fid, ok := ce.Fun.(*ast.Ident); ok && fid.Name == "copy" {
+				if bid, low, ok := c.paramBuf9(ce.Args[0]); ok {
+					nid, isId := as.Lhs[0].(*ast.Ident)
+					if !isId {
+						return "", false
+					}
+					off, _ := c.expr(low, "Int64")
+					src, st := c.expr(ce.Args[1], "L_UInt8")
+					if st != "L_UInt8" {
+						c.fail("copy from something other than a byte slice")
+						return "0", true
+					}
+					var n string
+					if as.Tok == token.DEFINE {
+						n = c.declare(nid.Name, "Int64")
+					} else if c.vars[nid.Name] == "Int64" {
+						n = c.lname(nid.Name)
+					} else {
+						c.fail("count of copy assigned to %s", nid.Name)
+						return "0", true
+					}
+					tb, tn := c.fresh("_s"), c.fresh("_n")
+					c.binds = append(c.binds, c.bindLine("(Go.copyAt? "+c.lname(bid.Name)+" "+off+" "+src+")", "("+tb+", "+tn+")", "opt:slice"))
+					c.needPrelude3 = true
+					return c.takeBinds(ind) + c.letLine(c.lname(bid.Name), "L_UInt8", tb) + nl + c.letLine(n, "Int64", tn) + nl + next(ind), true
+				}
+			}
+		}
+	}
+	if es, ok := s.(*ast.ExprStmt); ok {
+		if ce, ok := es.X.(*ast.CallExpr); ok && isPutUint16(ce) { // binary.BigEndian.PutUint16(buf[k:], v) on a byte-slice parameter
+			if bid, low, ok := c.paramBuf9(ce.Args[0]); ok {
+				off, _ := c.expr(low, "Int64")
+				v, vt := c.expr(ce.Args[1], "UInt16")
+				if vt != "UInt16" && vt != "" {
+					c.fail("PutUint16 of a %s", vt)
+					return "0", true
+				}
+				tmp := c.fresh("_s")
+				c.binds = append(c.binds, c.bindLine("(Go.putU16? "+c.lname(bid.Name)+" "+off+" "+v+")", tmp, "opt:slice"))
+				return c.takeBinds(ind) + c.letLine(c.lname(bid.Name), "L_UInt8", tmp) + nl + next(ind), true
+			}
+		}
+	}
 	es, ok := s.(*ast.ExprStmt)
 	if !ok {
 		return "", false
@@ -263,4 +367,17 @@ func (c *leafCtx) stmt9(s ast.Stmt, next func(string) string, ind string) (strin
 	}
 	th := "sk_" + id.Name
 	return c.takeBinds(ind) + "let " + th + " : " + threadType(th) + " := " + th + " ++ [" + e + "]\n" + ind + next(ind), true
+}
+
+func (c *leafCtx) isOutParam9(e ast.Expr) bool {
+	id, ok := e.(*ast.Ident)
+	if !ok || c.vars[id.Name] != "L_UInt8" || c.madeHere[id.Name] {
+		return false
+	}
+	for _, o := range c.outs {
+		if o == id.Name {
+			return true
+		}
+	}
+	return false
 }
